@@ -295,6 +295,8 @@ def run_algo(pid, algo, tier, seed):
 
 def run(tier, seed):
     res = run_algo("C07", "epa", tier, seed)
+    from .. import epaloop
+    epaloop.run(res, tier, seed)          # composite explorer GjkEpa.tla: model checking + stateful trace validation of real runs
     res.assumptions = ["complete facet list of the Minkowski difference from scipy/Qhull on integer input (trusted base); the facet used is certified by TLC (FacetOK)",
                        "round shapes: minimality in upper-bound form over 3000 sampled and locally refined directions"]
     return res
